@@ -14,6 +14,8 @@ talk about, derived from the Dalvik bytecode specification only:
     (exception edges are not part of the successor relation of C11; they are what C12 is about);
   * fill-array-data refers to its payload the same way and then falls through;
   * every other instruction continues with the next instruction;
+  * a branch or switch-case target outside [0, size of the insns array) designates no instruction of the method: it
+    is no successor (C11: "the in-method targets") and requires no leader (C10); nothing else changes;
   * a try_item covers the code units [start_addr, start_addr + insn_count); an encoded_catch_handler has typed
     handlers (type, addr) in order and optionally a catch-all address.
 
